@@ -528,7 +528,7 @@ def gen_world(rng, tier):
         cfgs = ["ambient"]
     else:
         k = rng.choices([1, 2, 3], weights=[4, 4, 2])[0]
-        cfgs = [rng.choice(["mixed", "upper", "gprefix", "minimal"]) for _ in range(k)]
+        cfgs = [rng.choice(["mixed", "upper", "gprefix", "minimal", "orthopara"]) for _ in range(k)]
     nets = []
     uid0 = 0
     for c in cfgs:
